@@ -1,6 +1,7 @@
 SPECIFICATION MCSpec
 CONSTANTS
   OrderBy = "filename"
+  Chain = "first"
   Decode = "path"
   Packages = {}
   K = 3
